@@ -131,7 +131,9 @@ func (p *pool) newMember(t *rapid.T) {
 	if len(p.ms) > 0 && rapid.Bool().Draw(t, "related") {
 		// same keys as an existing member so that chunks meet
 		o := p.pick(t, "like")
-		bs = gen.FromSet(t, "like", model.Xor(o.m, bs.Set()), gen.KindsValid)
+		if o.m.Card() < 400000 {
+			bs, _ = gen.Related(t, "like", gen.FromSet(t, "likesrc", o.m, gen.KindsValid), gen.KindsValid)
+		}
 	}
 	f := live.DrawForm(t, "form")
 	lv := mustMake(t, bs, f)
